@@ -398,6 +398,25 @@ func c10Build() *c10World {
 		structuredheader.ParseListOfLists(string(in))
 		structuredheader.ParseParameterisedList(string(in))
 	}})
+	// ... and every string of up to 5 (quick) / 6 (thorough) characters over the characters the structured-header grammar
+	// distinguishes (the raw alphabet above is made of CBOR heads): a cursor that runs off the end needs a particular
+	// arrangement of quotes and backslashes, not a particular length
+	shAlpha := []byte{'"', '\\', 'a', ';', '=', ',', '*', ' ', '1', '-'}
+	w.targets = append(w.targets, &c10Target{name: "structuredheader.Parse*(grammar strings)",
+		gen: func(c *mc.Ctx) ([]byte, string) {
+			n := c.Free(c.Pick(6, 7), "len")
+			in := make([]byte, n)
+			for i := range in {
+				in[i] = shAlpha[c.Free(len(shAlpha), "char")]
+			}
+			return in, "sh:" + hx(in)
+		},
+		run: func(in []byte) {
+			structuredheader.ParseListOfLists(string(in))
+			structuredheader.ParseParameterisedList(string(in))
+			structuredheader.ParseListOfLists("x, " + string(in))
+			structuredheader.ParseParameterisedList("l;k=" + string(in))
+		}})
 	w.targets = append(w.targets, &c10Target{name: "integrityblock.WebBundleHasIntegrityBlock", artifacts: rawArt, run: func(in []byte) {
 		integrityblock.WebBundleHasIntegrityBlock(bytes.NewReader(in))
 	}})
